@@ -23,7 +23,7 @@ import (
 
 type genCase struct {
 	Kind string `json:"kind"` // "genid"
-	// Icpt: "" or "lower" (WithIDInterceptor(strings.ToLower): candidates are probed and stored in lower case)
+	// Icpt: "", "ns" (see nsPrefix) or "lower" (WithIDInterceptor(strings.ToLower): candidates are probed and stored in lower case)
 	Icpt string `json:"icpt,omitempty"`
 	// Fill: the rng: its k-th Read returns bytes that all equal 0x00 (letter a) / 0xff (b) / 0x41 (c); reads
 	// beyond the string repeat its last letter.  Equal letters make the candidates of a given length equal.
@@ -72,17 +72,33 @@ type genObs struct {
 }
 
 func (g genCase) canon(id string) string {
-	if g.Icpt == "lower" {
+	switch g.Icpt {
+	case "lower":
 		return strings.ToLower(id)
+	case "ns":
+		return nsPrefix(id)
 	}
 	return id
+}
+
+// nsPrefix is an id interceptor that turns the EMPTY id into a key of its own: ids live in the name space
+// `ns/` whether or not the caller says so.  Whether the caller provided an id is decided before the interceptor
+// runs (fix 929e9c0): Add("", WithGenIDIfAbsent()) generates an id on such a collection too.
+func nsPrefix(id string) string {
+	if strings.HasPrefix(id, "ns/") {
+		return id
+	}
+	return "ns/" + id
 }
 
 func (g genCase) run(m sink) (o genObs) {
 	rng := &scriptRng{fill: g.Fill}
 	opts := []resource.Option{resource.WithRNG(rng)}
-	if g.Icpt == "lower" {
+	switch g.Icpt {
+	case "lower":
 		opts = append(opts, resource.WithIDInterceptor(strings.ToLower))
+	case "ns":
+		opts = append(opts, resource.WithIDInterceptor(nsPrefix))
 	}
 	c := resource.NewCollection(opts...)
 	before := map[string]string{}
@@ -153,7 +169,7 @@ func (g genCase) run(m sink) (o genObs) {
 		select {
 		case ev := <-ch:
 			s := showChange(ev, false)
-			if strings.HasPrefix(s, "~f,") {
+			if strings.HasPrefix(s, g.canon("~f")+",") {
 				done = true
 			} else {
 				evs = append(evs, s)
@@ -221,8 +237,8 @@ func (g genCase) tieRecord(tie *lib.Tie, drv *lib.Driver, o genObs) {
 		return strings.Join(l, ",")
 	}
 	canon := "none"
-	if g.Icpt == "lower" {
-		canon = "lower"
+	if g.Icpt != "" {
+		canon = g.Icpt
 	}
 	ans, err := drv.Ask(strings.Join([]string{"genid", canon, join(o.Cands), join(o.Stored)}, " "))
 	if err != nil {
@@ -240,7 +256,7 @@ func (g genCase) tieRecord(tie *lib.Tie, drv *lib.Driver, o genObs) {
 
 func runGenID(f lib.Flags, res *lib.Result, drv *lib.Driver) {
 	tie := res.Tie("generated-ids", "K2",
-		"Collection.Add(\"\", WithGenIDIfAbsent) on a real collection with a scripted rng (every Read filled with one of three bytes: equal fills make the candidates of a length equal) and 0-10 of the expected candidates (and other ids) stored beforehand, without and with the lower-casing id interceptor; the candidates the code really drew are read off the rng and handed to the Lean model genUniqueId (ScVerif/C08/GenId.lean) with the stored ids: same id, or Aborted; exhaustive over 8 rng scripts x 17 stored-sets x 2 interceptors; non-trivial = some candidate stored; distinct = (interceptor, fill, stored set)")
+		"Collection.Add(\"\", WithGenIDIfAbsent) on a real collection with a scripted rng (every Read filled with one of three bytes: equal fills make the candidates of a length equal) and 0-10 of the expected candidates (and other ids) stored beforehand, without an id interceptor, with the lower-casing one and with one that puts every id - the empty one too - into a name space `ns/` (the call must still generate an id: whether an id was provided is decided before the interceptor runs, fix 929e9c0); the candidates the code really drew are read off the rng and handed to the Lean model genUniqueId (ScVerif/C08/GenId.lean) with the stored ids: same id, or Aborted; exhaustive over 8 rng scripts x 17 stored-sets x 3 interceptors; non-trivial = some candidate stored; distinct = (interceptor, fill, stored set)")
 	tie.Exhaustive = true
 	mon := res.Monitor("generated-id-is-new", "the same cases against a plain-map oracle with a Pull(WithInclude(value is the new one)) subscriber on the collection: the generated id was not stored before, every stored item is unchanged, the subscriber is sent exactly one ADD of the generated id carrying the new value, List(WithInclude) lists it; with all ten candidates stored the call fails (Aborted) and the subscriber is sent nothing")
 	fills := []string{"a", "b", "c", "ab", "ba", "ac", "cb", "aab"}
@@ -249,7 +265,7 @@ func runGenID(f lib.Flags, res *lib.Result, drv *lib.Driver) {
 		masks = append(masks, (1<<m)-1)
 	}
 	masks = append(masks, 0b10, 0b101, 0b1111111110, 0b0111111111, 0b1010101010, 0b0101010101)
-	for _, ic := range []string{"", "lower"} {
+	for _, ic := range []string{"", "lower", "ns"} {
 		for _, fill := range fills {
 			for _, mask := range masks {
 				g := genCase{Kind: "genid", Icpt: ic, Fill: fill, Taken: mask, Other: []string{"zz", "AAAA"}}
